@@ -720,6 +720,9 @@ func (w *CliWorld) laneSend(l *laneState) {
 		if op.Pad >= 0 {
 			w.Probes["headers-padded"]++
 		}
+		if op.Kind == "trailers" {
+			w.Probes["response-trailers"]++
+		}
 		w.sim.Logf("srv>> lane%d stream %d %s block=%x parts=%d", l.idx, id, op.Kind, blk, len(parts))
 		w.s2c.Inject(frames[0])
 		l.queue = frames[1:]
@@ -775,6 +778,10 @@ func (w *CliWorld) laneSend(l *laneState) {
 		last := uint32(op.Incr)
 		if op.LaneRef > 0 {
 			last = w.lanes[op.LaneRef-1].id
+		} else if op.LaneRef == -1 {
+			for _, id := range w.streamOrder {
+				last = max(last, id)
+			}
 		}
 		w.GoAwaySent = append(w.GoAwaySent, GoAwaySent{Last: last, Code: op.Code, Step: w.sim.Steps, StreamsSeen: len(w.streamOrder)})
 		w.s2c.Inject(w.fw.GoAway(last, op.Code, nil))
@@ -927,11 +934,31 @@ func (w *CliWorld) closeConn() {
 	})
 }
 
+// needsWindow: the stream's request still has body octets that have not arrived. A stream whose whole body is here and
+// which lacks nothing but END_STREAM needs no window: an empty DATA frame costs none.
+func (w *CliWorld) needsWindow(ss *SrvStream) bool {
+	if ss.Rid < 0 || ss.Rid >= len(w.plan.Reqs) {
+		return true
+	}
+	q := w.plan.Reqs[ss.Rid]
+	if q.BodyMode == "none" || q.BodyMode == "" {
+		return true // not an upload the plan knows the length of: be generous
+	}
+	return ss.RecvBytes < int64(q.BodyLen)
+}
+
 func (w *CliWorld) drainGrantAction() *Action {
 	const target = int64(1 << 28)
 	// only what is needed: a sender that stays parked although both of its windows are open is the defect the drain
 	// phase is there to expose, and a grant it did not need would wake it up
-	if avail := w.connGranted - w.connRecv; avail <= 0 {
+	anyNeeds := false
+	for _, id := range w.streamOrder {
+		ss := w.Streams[id]
+		if ss.EndStreams == 0 && len(ss.RST) == 0 && ss.HdrBlocks > 0 && w.needsWindow(ss) {
+			anyNeeds = true
+		}
+	}
+	if avail := w.connGranted - w.connRecv; avail <= 0 && anyNeeds {
 		inc := target - avail
 		return &Action{Name: fmt.Sprintf("drain-grant conn +%d", inc), Env: true, Run: func() {
 			w.connGranted += inc
@@ -940,7 +967,7 @@ func (w *CliWorld) drainGrantAction() *Action {
 	}
 	for _, id := range w.streamOrder {
 		ss := w.Streams[id]
-		if ss.EndStreams > 0 || len(ss.RST) > 0 || ss.HdrBlocks == 0 {
+		if ss.EndStreams > 0 || len(ss.RST) > 0 || ss.HdrBlocks == 0 || !w.needsWindow(ss) {
 			continue
 		}
 		lo := w.ackedInit
